@@ -340,6 +340,12 @@ func (ex *Exec) indexAddr(fr *Frame, x *ssa.IndexAddr, st *State, reach Term) Va
 func (ex *Exec) index(fr *Frame, x *ssa.Index, st *State, reach Term) Val {
 	base := ex.scalar(ex.get(fr, x.X, st))
 	idx := ex.scalar(ex.get(fr, x.Index, st))
+	if isString(x.X.Type()) {
+		ex.boundsObl(fr, "index", x.Pos(), reach, InRange(IntLit(0), idx, StrLen(base)), isIndexExpr, "string")
+		r := ex.vc.define(x.Name(), StrAt(base, idx))
+		ex.vc.assume(And(Le(IntLit(0), r), Le(r, IntLit(255))))
+		return Scalar{r, x.Type()}
+	}
 	switch u := under(x.X.Type()).(type) {
 	case *types.Array:
 		ex.boundsObl(fr, "index", x.Pos(), reach, InRange(IntLit(0), idx, IntLit(u.Len())), isIndexExpr, "array")
@@ -425,12 +431,18 @@ func (ex *Exec) sliceOp(fr *Frame, x *ssa.Slice, st *State, reach Term) Val {
 // back into the array value, so this is only used for read-only views.
 func (ex *Exec) arrayBacking(p PtrV, arr *types.Array, st *State) Term {
 	cur := ex.scalar(ex.load(p, st))
-	ref := ex.vc.fresh("arrview", SInt)
-	ex.vc.assume(And(Gt(ref, IntLit(0)), Lt(ref, st.top)))
+	ref := ex.allocRef("arrview", st)
+	if ex.track != nil {
+		ex.track.freshSym[ref.S] = true
+	}
 	name, _ := elemHeap(arr.Elem(), nil)
 	h := st.heap(name, ArraySort(ArraySort(sortOf(arr.Elem()))))
 	ex.vc.assume(Eq(Select(h, ref), cur))
-	ex.vc.Assumptions["slices of fixed-size arrays (a[:]) are read-only views: writes through them are not propagated back to the array value"] = true
+	ex.vc.Assumptions["a slice of (or pointer to) an array-typed struct field is a snapshot view: direct writes through it are mirrored back, later writes to the field are not seen through an older view"] = true
+	if ex.views == nil {
+		ex.views = map[string]PtrV{}
+	}
+	ex.views[ref.S] = p
 	return ref
 }
 
@@ -480,8 +492,7 @@ func (ex *Exec) convert(fr *Frame, x *ssa.Convert, st *State, reach Term) Val {
 		elem := under(to).(*types.Slice).Elem()
 		s := ex.scalar(v)
 		if b, ok := under(elem).(*types.Basic); ok && b.Kind() == types.Int32 {
-			// []rune(s): only under an ASCII obligation
-			ex.asciiObl(fr, s, reach, x.Pos(), "[]rune(...)")
+			return Scalar{ex.runesOf(s, elem, st), to}
 		}
 		sl := ex.newArray(elem, StrLen(s), StrLen(s), st)
 		name, _ := elemHeap(elem, nil)
@@ -666,9 +677,15 @@ func (ex *Exec) next(fr *Frame, x *ssa.Next, st *State, reach Term) Val {
 	okT := ex.vc.define("ok", Lt(pos, StrLen(s)))
 	ch := ex.vc.define("ch", StrAt(s, pos))
 	ex.vc.assume(Implies(okT, And(Le(IntLit(0), ch), Le(ch, IntLit(255)))))
-	o := ex.vc.oblige("ascii", fr.name("ascii:range"), And(reach, okT), Lt(ch, IntLit(128)), ex.where(x.Pos()))
-	o.Descr = "ranging over a string is modelled byte-wise; every byte must be ASCII"
-	ex.vc.assume(Implies(And(reach, okT), Lt(ch, IntLit(128))))
+	// byte position == rune position only while every earlier byte was ASCII
+	j := Var("j?", SInt)
+	prefixASCII := Forall([]Bound{{"j?", SInt}}, Implies(InRange(IntLit(0), j, pos), Lt(StrAt(s, j), IntLit(128))))
+	o := ex.vc.oblige("ascii", fr.name("ascii:range"), reach, prefixASCII, ex.where(x.Pos()))
+	o.Descr = "ranging over a string is modelled byte-wise: all bytes before the current position must be ASCII (a non-ASCII rune may be seen once, as a value > 127, but the loop must not continue past it)"
+	ex.vc.assume(Implies(reach, prefixASCII))
+	big := ex.vc.fresh("rune", SInt)
+	ex.vc.assume(And(Gt(big, IntLit(127)), Le(big, IntLit(1114111))))
+	ch = ex.vc.define("rv", Ite(Lt(ch, IntLit(128)), ch, big))
 	st.iters[x.Iter] = Ite(okT, pos, cur)
 	st.iters[x.Iter] = ex.vc.define("iter", st.iters[x.Iter])
 	return TupleV{E: []Val{Scalar{okT, types.Typ[types.Bool]}, Scalar{pos, types.Typ[types.Int]}, Scalar{ch, types.Typ[types.Rune]}}}
@@ -696,4 +713,30 @@ func (ex *Exec) mulTerm(a, b Term) Term {
 		ex.vc.assume(Implies(Eq(x, IntLit(0)), Eq(p, IntLit(0))))
 	}
 	return p
+}
+
+// runesOf models []rune(s) by the facts UTF-8 decoding guarantees about the ASCII prefix:
+// while all bytes up to i are ASCII, rune i exists and equals byte i; the first non-ASCII byte j
+// starts rune j, whose value is > 127 (decoded or RuneError). Nothing is said beyond that.
+func (ex *Exec) runesOf(s Term, elem types.Type, st *State) Term {
+	n := ex.vc.fresh("nrunes", SInt)
+	ex.vc.assume(And(Le(IntLit(0), n), Le(n, StrLen(s))))
+	sl := ex.newArray(elem, n, n, st)
+	name, _ := elemHeap(elem, nil)
+	srt := ArraySort(ArraySort(SInt))
+	h := st.heap(name, srt)
+	row := ex.vc.fresh("runes", ArraySort(SInt))
+	i, k := Var("i?", SInt), Var("k?", SInt)
+	prefix := func(upto Term) Term {
+		return Forall([]Bound{{"k?", SInt}}, Implies(InRange(IntLit(0), k, upto), Lt(StrAt(s, k), IntLit(128))))
+	}
+	ex.vc.assume(ForallPat([]Bound{{"i?", SInt}}, Implies(And(InRange(IntLit(0), i, StrLen(s)), prefix(i)),
+		And(Lt(i, n), Ite(Lt(StrAt(s, i), IntLit(128)), Eq(Select(row, i), StrAt(s, i)), Gt(Select(row, i), IntLit(127))))), [][]Term{{Select(row, i)}}))
+	ex.vc.assume(ForallPat([]Bound{{"i?", SInt}}, Implies(InRange(IntLit(0), i, n), And(Le(IntLit(0), Select(row, i)), Le(Select(row, i), IntLit(1114111)))), [][]Term{{Select(row, i)}}))
+	ex.vc.assume(Implies(prefix(StrLen(s)), Eq(n, StrLen(s))))
+	nh := ex.vc.fresh(name, srt)
+	ex.vc.assume(Eq(nh, Store(h, SlArr(sl), row)))
+	st.heaps[name] = nh
+	ex.vc.Assumptions["[]rune(s) and range over a string are modelled through the ASCII prefix only (rune index == byte index while all earlier bytes are < 128; the first non-ASCII rune has a value > 127)"] = true
+	return sl
 }
